@@ -80,7 +80,7 @@ def _apply_nesting_config_override(
 
 def _apply_nesting_to_languages(nesting_config: dict, max_depth: int) -> None:
     """Apply max_depth to language-specific configs."""
-    for lang in ["python", "typescript", "javascript"]:
+    for lang in ["python", "typescript", "javascript", "rust"]:
         with suppress(KeyError):
             nesting_config[lang]["max_nesting_depth"] = max_depth
 
@@ -212,6 +212,12 @@ def _apply_srp_config_override(
     srp_config = ensure_config_section(orchestrator, "srp")
     set_config_value(srp_config, "max_methods", max_methods, verbose)
     set_config_value(srp_config, "max_loc", max_loc, verbose)
+    # Command-line options also win over per-language overrides from the config file
+    for lang in ["python", "typescript", "javascript", "rust"]:
+        lang_config = srp_config.get(lang)
+        if isinstance(lang_config, dict):
+            set_config_value(lang_config, "max_methods", max_methods, verbose)
+            set_config_value(lang_config, "max_loc", max_loc, verbose)
 
 
 def _run_srp_lint(
